@@ -40,6 +40,10 @@ type ActCase struct {
 	// the same input leaf before the first back-propagation and back-propagated in turn; only
 	// then is the gradient read: (Multi+1) times the single one
 	Multi int `json:"multi,omitempty"`
+	// Zero: the activation object is the zero value of its struct type (var l activations.Relu,
+	// &activations.Softmax{}, ...) where that denotes the same configuration (Relu, Sigmoid,
+	// Tanh always; Softmax for dimension 0; LeakyRelu for slope 0)
+	Zero bool `json:"zero,omitempty"`
 }
 
 // firstOtherRank makes the activation object evaluate an input of another rank (C14 / C15).
@@ -141,6 +145,22 @@ func (c ActCase) layer() (func(x tensor.Tensor) (tensor.Tensor, error), error) {
 	}, nil
 }
 
+// spreadCall calls a variadic Forward with a caller-owned slice spread into it (half of the
+// calls, by the input's element count) and verifies that the call left the slice alone.
+func spreadCall(fw func(...tensor.Tensor) (tensor.Tensor, error)) func(x tensor.Tensor) (tensor.Tensor, error) {
+	return func(x tensor.Tensor) (tensor.Tensor, error) {
+		if x == nil || x.NElems()%2 == 0 {
+			return fw(x)
+		}
+		xs := []tensor.Tensor{x}
+		y, err := fw(xs...)
+		if len(xs) != 1 || xs[0] != x {
+			return nil, fmt.Errorf("Forward(inputs...) changed the caller's input slice")
+		}
+		return y, err
+	}
+}
+
 // otherLayer constructs an activation of the same kind with another configuration.
 func (c ActCase) otherLayer() func(x tensor.Tensor) (tensor.Tensor, error) {
 	o := c
@@ -159,10 +179,29 @@ func (c ActCase) otherLayer() func(x tensor.Tensor) (tensor.Tensor, error) {
 }
 
 func (c ActCase) layer1() (func(x tensor.Tensor) (tensor.Tensor, error), error) {
+	if c.Zero {
+		switch {
+		case c.Kind == "relu":
+			var l activations.Relu
+			return spreadCall(l.Forward), nil
+		case c.Kind == "sigmoid":
+			l := &activations.Sigmoid{}
+			return spreadCall(l.Forward), nil
+		case c.Kind == "tanh":
+			l := new(activations.Tanh)
+			return spreadCall(l.Forward), nil
+		case c.Kind == "softmax" && c.dim() == 0:
+			l := &activations.Softmax{}
+			return spreadCall(l.Forward), nil
+		case c.Kind == "leaky" && c.slope() == 0:
+			var l activations.LeakyRelu
+			return spreadCall(l.Forward), nil
+		}
+	}
 	switch c.Kind {
 	case "relu":
 		l := activations.NewRelu()
-		return func(x tensor.Tensor) (tensor.Tensor, error) { return l.Forward(x) }, nil
+		return spreadCall(l.Forward), nil
 	case "leaky":
 		var conf *activations.LeakyReluConfig
 		if !c.NilConf {
@@ -172,13 +211,13 @@ func (c ActCase) layer1() (func(x tensor.Tensor) (tensor.Tensor, error), error) 
 		if conf != nil {
 			conf.M = 77 // the caller reuses its config struct: the layer is configured already
 		}
-		return func(x tensor.Tensor) (tensor.Tensor, error) { return l.Forward(x) }, nil
+		return spreadCall(l.Forward), nil
 	case "sigmoid":
 		l := activations.NewSigmoid()
-		return func(x tensor.Tensor) (tensor.Tensor, error) { return l.Forward(x) }, nil
+		return spreadCall(l.Forward), nil
 	case "tanh":
 		l := activations.NewTanh()
-		return func(x tensor.Tensor) (tensor.Tensor, error) { return l.Forward(x) }, nil
+		return spreadCall(l.Forward), nil
 	}
 	var conf *activations.SoftmaxConfig
 	if !c.NilConf {
@@ -191,7 +230,7 @@ func (c ActCase) layer1() (func(x tensor.Tensor) (tensor.Tensor, error), error) 
 	if conf != nil {
 		conf.Dim = 9 // the caller reuses its config struct: the layer is configured already
 	}
-	return func(x tensor.Tensor) (tensor.Tensor, error) { return sm.Forward(x) }, nil
+	return spreadCall(sm.Forward), nil
 }
 
 func (c ActCase) forward(x tensor.Tensor) (tensor.Tensor, error) {
@@ -239,6 +278,7 @@ func genActShape(t *rapid.T, c *ActCase) []int {
 	if rapid.IntRange(0, 2).Draw(t, "otherobject") == 0 {
 		c.Other = rapid.IntRange(1, 2).Draw(t, "otherwhen")
 	}
+	c.Zero = rapid.IntRange(0, 5).Draw(t, "zerovalue") == 0
 	if rapid.IntRange(0, 2).Draw(t, "firstrank") == 0 {
 		c.FirstRank = rapid.IntRange(1, 3).Draw(t, "firstrankkind")
 	}
@@ -585,6 +625,11 @@ func checkC15(c ActCase) *Failure {
 	}
 	if err := tensor.BackPropagate(z); err != nil {
 		return failf("BackPropagate through %s returned error: %v", c.Kind, err)
+	}
+	if reach[xid] {
+		if f := rootGradientIsOnes(z); f != nil {
+			return failf("%s (root topology %d): %s", c.Kind, c.Fan, f.Msg)
+		}
 	}
 	for k, zk := range moreRoots {
 		if err := tensor.BackPropagate(zk); err != nil {
